@@ -4667,6 +4667,11 @@ class WBEMConnection:  # pylint: disable=too-many-instance-attributes
         exc = None
         result_tuple = None
 
+        # Params may be any iterable, also a one-shot iterator. It is needed
+        # twice: by the operation recorders and for building the request.
+        if Params is not None and not isinstance(Params, (list, tuple)):
+            Params = list(Params)
+
         if self._operation_recorders:
             self.operation_recorder_reset()
             self.operation_recorder_stage_pywbem_args(
